@@ -121,7 +121,10 @@ class Fn:
 def callee(t):
     """Resolved callee path of a call terminator (falls back to the unresolved one)."""
     info = t[1]
-    return info.get("f") or info.get("o") or ""
+    c = info.get("f") or info.get("o") or ""
+    # "#virtual" / "#fnptrshim" ... mark the instance kind; rules match on the path
+    i = c.find("#")
+    return c if i < 0 else c[:i]
 
 
 def callee_orig(t):
